@@ -380,8 +380,8 @@ def identity_part(ck: Check, code):
     lang = H.lang_value(exq, L.type_name)
     plain = []
     for r in reps + ['Cows', 'ÉTÉ', 'naïve', "d'accord"]:
-        if not H._wordlike(r):
-            continue
+        if not H._wordlike(r) or (code == 'en' and r == 'o'):
+            continue        # the English 'o' rule is C18's subject (and forks the annotator on every neighbour)
         rr = exq.explore('text2digits', [r, lang])
         if len(rr) == 1 and concrete_int(rr[0].ret.disc) == 1:
             plain.append(r)
